@@ -285,6 +285,28 @@ PointReflect ==
             \A k \in 1..NL, j \in 0..(vc.ny - 1), i \in 0..(vc.nx - 1) :
               /\ vres.flx[k][j][i] = rd.flx[k][(((2 * ShiftJ) + vc.ny) - j) % vc.ny][(((2 * ShiftI) + vc.nx) - i) % vc.nx]
               /\ vres.conc[k][j][i] = RAdd(rd.conc[k][(((2 * ShiftJ) + vc.ny) - j) % vc.ny][(((2 * ShiftI) + vc.nx) - i) % vc.nx], vc.bg)
+\* With a halo the cropped output is a window of the padded periodic domain: the same relations hold between all pairs
+\* of cells that both lie inside the window (no wrap-around is visible).
+InWin(j, i) == j >= 0 /\ j < vc.ny /\ i >= 0 /\ i < vc.nx
+TranslateTowerIn ==
+    OK /\ vc.fp /\ vc.halo # 0 =>
+        LET g  == G0
+            H  == Transfer(vc, g)
+            r0 == RunH([vc EXCEPT !.xm = 0, !.ym = 0], g, H)
+        IN  \A k \in 1..NL, j \in 0..(vc.ny - 1), i \in 0..(vc.nx - 1) :
+              InWin(j - ShiftJ, i - ShiftI) =>
+                  /\ vres.flx[k][j][i] = r0.flx[k][j - ShiftJ][i - ShiftI]
+                  /\ vres.conc[k][j][i] = r0.conc[k][j - ShiftJ][i - ShiftI]
+PointReflectIn ==
+    OK /\ vc.fp /\ vc.halo # 0 =>
+        LET g  == G0
+            H  == Transfer(vc, g)
+            rd == RunH([vc EXCEPT !.fp = FALSE, !.xm = 0, !.ym = 0, !.src = <<"unit", ShiftJ, ShiftI>>, !.bg = 0], g, H)
+        IN  rd.err = "none" =>
+            \A k \in 1..NL, j \in 0..(vc.ny - 1), i \in 0..(vc.nx - 1) :
+              InWin((2 * ShiftJ) - j, (2 * ShiftI) - i) =>
+                  /\ vres.flx[k][j][i] = rd.flx[k][(2 * ShiftJ) - j][(2 * ShiftI) - i]
+                  /\ vres.conc[k][j][i] = RAdd(rd.conc[k][(2 * ShiftJ) - j][(2 * ShiftI) - i], vc.bg)
 \* dispersion mode: a non-zero measurement point re-centres the output (even sizes: the centre is a grid point)
 Recentre ==
     OK /\ ~vc.fp /\ vc.halo = 0 /\ (vc.xm # 0 \/ vc.ym # 0) /\ (vc.nx % 2) = 0 /\ (vc.ny % 2) = 0 =>
@@ -420,12 +442,13 @@ Verdicts ==
                                   BackgroundOnlyOffsetsConc |-> S /\ BackgroundOnlyOffsetsConc,
                                   FootprintIgnoresValues |-> S /\ FootprintIgnoresValues]
       [] Family = "translate" -> [ShapeOrError |-> S, TranslateSource |-> S /\ TranslateSource, TranslateTower |-> S /\ TranslateTower,
-                                  PointReflect |-> S /\ PointReflect, Recentre |-> S /\ Recentre]
+                                  PointReflect |-> S /\ PointReflect, Recentre |-> S /\ Recentre,
+                                  TranslateTowerIn |-> S /\ TranslateTowerIn, PointReflectIn |-> S /\ PointReflectIn]
       [] Family = "symmetry"  -> [ShapeOrError |-> S, MirrorX |-> S /\ MirrorX, MirrorY |-> S /\ MirrorY, Transpose |-> S /\ Transpose]
       [] Family = "mirror"    -> [ShapeOrError |-> S, MirrorCentreX |-> S /\ MirrorCentreX, MirrorCentreY |-> S /\ MirrorCentreY]
       [] Family = "levels"    -> [ShapeOrError |-> S, SlotIsSingle |-> S /\ SlotIsSingle, FullColumnSlice |-> S /\ FullColumnSlice,
                                   NoSilentBroadcast |-> NoSilentBroadcast]
-      [] Family = "shape"     -> [ShapeOrError |-> S, LowPass |-> S /\ LowPass, ClampEq |-> S /\ ClampEq]
+      [] Family = "shape"     -> [ShapeOrError |-> S, LowPass |-> S /\ LowPass, ClampEq |-> S /\ ClampEq, HaloIsPadding |-> S /\ HaloIsPadding]
 EmitV == Done => PrintT("@@" \o ToJson(EmitRec @@ [verdicts |-> Verdicts]))
 
 =============================================================================
